@@ -335,8 +335,55 @@ fn bisect_f32(lo: f32, hi: f32, p: impl Fn(f32) -> bool) -> Option<(f32, f32)> {
     Some((f32::from_bits(a), f32::from_bits(b)))
 }
 
+/// The section headers as the compiled crate reads them: for every section the probes below write
+/// its usual header; should the crate read that section under another spelling (found among the
+/// case variants and near misses of the usual one, `Colors` for `Colours`, ...), the observed
+/// spelling is used instead, so that a changed header shows up in `section_table` only.
+fn observed_headers() -> &'static Vec<(&'static str, String)> {
+    static H: std::sync::OnceLock<Vec<(&'static str, String)>> = std::sync::OnceLock::new();
+    H.get_or_init(|| {
+        let usual: [(&str, Section); 8] = [
+            ("General", Section::General), ("Editor", Section::Editor), ("Metadata", Section::Metadata), ("Difficulty", Section::Difficulty),
+            ("Events", Section::Events), ("TimingPoints", Section::TimingPoints), ("Colours", Section::Colors), ("HitObjects", Section::HitObjects),
+        ];
+        usual.iter().map(|(name, sec)| {
+            let reads = |n: &str| guarded(|| Section::try_from_line(&format!("[{n}]"))).ok().flatten() == Some(*sec);
+            let mut cands = vec![name.to_string(), format!("{sec:?}")];
+            cands.extend(mutations(name));
+            cands.extend(["Colors", "Colours", "Colour", "Color"].iter().map(|s| s.to_string()));
+            (*name, cands.into_iter().find(|c| reads(c)).unwrap_or_else(|| name.to_string()))
+        }).collect()
+    })
+}
+
+thread_local! {
+    /// usual headers written by a probe although the compiled crate reads no spelling of them we know
+    static MISSING: std::cell::RefCell<Vec<String>> = const { std::cell::RefCell::new(Vec::new()) };
+}
+
 fn decode<D: DecodeBeatmap>(text: &str) -> Option<D> {
-    guarded(|| rosu_map::from_str::<D>(text)).ok().and_then(Result::ok)
+    let mut t = String::with_capacity(text.len() + 8);
+    for line in text.split_inclusive('\n') {
+        let bare = line.trim_end_matches('\n');
+        match observed_headers().iter().find(|(usual, _)| bare.strip_prefix('[').and_then(|x| x.strip_suffix(']')) == Some(*usual)) {
+            Some((usual, seen)) => {
+                if guarded(|| Section::try_from_line(&format!("[{seen}]"))).ok().flatten().is_none() {
+                    MISSING.with(|m| {
+                        let mut m = m.borrow_mut();
+                        if !m.iter().any(|x| x == usual) {
+                            m.push(usual.to_string());
+                        }
+                    });
+                }
+                t.push('[');
+                t.push_str(seen);
+                t.push(']');
+                t.push_str(&line[bare.len()..]);
+            }
+            None => t.push_str(line),
+        }
+    }
+    guarded(|| rosu_map::from_str::<D>(&t)).ok().and_then(Result::ok)
 }
 
 /// case variants and near misses of a word (never the word itself)
@@ -562,7 +609,7 @@ fn basics(k: &Kept, e: &mut BTreeMap<String, Entry>) {
     e.insert("section_table".into(), val(coq_pair_list(&rows), format!("Section::try_from_line on \"[name]\": {how}; plus bracket near-misses of every kept row")));
     e.insert("section_variants".into(), match variants_by_index(&obs) {
         Some(v) => val(coq_string_list(&v), "Debug names of the Section values reached through the header table, by discriminant (0..n-1 all reached); a variant no header reaches cannot be seen"),
-        None => refuted(format!("{obs:?}"), "discriminants reached through the header table are not 0..n-1"),
+        None => none(format!("the discriminants reached through the header table are not 0..n-1, so some variant is reached by no header tried and its name cannot be seen: {obs:?}")),
     });
 
     // ---- key enums
@@ -608,7 +655,7 @@ fn basics(k: &Kept, e: &mut BTreeMap<String, Entry>) {
     let obs: Vec<(i64, String)> = rows.iter().filter_map(|(n, i)| EventType::from_str(n).ok().map(|v| (*i, format!("{v:?}")))).collect();
     e.insert("event_type_variants".into(), match variants_by_index(&obs) {
         Some(v) => val(coq_string_list(&v), "Debug names of the EventType values reached through from_str, by discriminant (0..n-1 all reached)"),
-        None => refuted(format!("{obs:?}"), "discriminants reached through EventType::from_str are not 0..n-1"),
+        None => none(format!("the discriminants reached through EventType::from_str are not 0..n-1, so some variant is reached by no spelling tried and its name cannot be seen: {obs:?}")),
     });
     let (en, rows) = t("sample_bank_table", &["0", "None", "1", "Normal", "2", "Soft", "3", "Drum"], &["none", "normal", "soft", "drum", "Auto", "All"],
         &|s| SampleBank::from_str(s).ok().map(|m| m as i64), "SampleBank::from_str, index = discriminant");
@@ -616,7 +663,7 @@ fn basics(k: &Kept, e: &mut BTreeMap<String, Entry>) {
     let obs: Vec<(i64, String)> = rows.iter().filter_map(|(n, i)| SampleBank::from_str(n).ok().map(|v| (*i, format!("{v:?}")))).collect();
     e.insert("sample_bank_variants".into(), match variants_by_index(&obs) {
         Some(v) => val(coq_string_list(&v), "Debug names of the SampleBank values reached through from_str, by discriminant (0..n-1 all reached)"),
-        None => refuted(format!("{obs:?}"), "discriminants reached through SampleBank::from_str are not 0..n-1"),
+        None => none(format!("the discriminants reached through SampleBank::from_str are not 0..n-1, so some variant is reached by no spelling tried and its name cannot be seen: {obs:?}")),
     });
     let mut ints: Vec<i64> = (-70000..=70000).collect();
     ints.extend([i64::from(i32::MIN), i64::from(i32::MIN) + 1, i64::from(i32::MAX), i64::from(i32::MAX) - 1, 1 << 16, 1 << 24, 1 << 30, -(1 << 16), -(1 << 24)]);
@@ -638,6 +685,19 @@ fn one64(a: f64, how: &str) -> Entry {
 
 fn one32(a: f32, how: &str) -> Entry {
     val(dec32(a), format!("{how}; {DEC_HOW}")).f32_bits(&[a])
+}
+
+/// (the character that marks a timing line as uninherited, one that does not), as observed; the
+/// usual ('1', '0') when the probe finds no single such character
+fn change_chars() -> (char, char) {
+    static C: std::sync::OnceLock<(char, char)> = std::sync::OnceLock::new();
+    *C.get_or_init(|| {
+        let hits: Vec<char> = (0x21u8..0x7f).map(char::from).filter(|c| *c != ',').filter(|c| {
+            tp(0, &format!("0,500,4,1,0,100,{c}")).map_or(false, |t| !t.control_points.timing_points.is_empty())
+        }).collect();
+        let u = if hits.len() == 1 { hits[0] } else { '1' };
+        (u, if u == '0' { '1' } else { '0' })
+    })
 }
 
 fn tp(mode: u8, lines: &str) -> Option<TimingPoints> {
@@ -864,7 +924,8 @@ fn timing(_k: &Kept, e: &mut BTreeMap<String, Entry>) {
     // ---- slider velocity clamp
     let lo_c = DifficultyPoint::new(0.0, 1.0, f64::NEG_INFINITY).slider_velocity;
     let hi_c = DifficultyPoint::new(0.0, 1.0, f64::INFINITY).slider_velocity;
-    let sv_of = |b: &str| tp(0, &format!("0,500\n10,{b},4,1,0,100,0,0")).and_then(|t| t.control_points.difficulty_points.last().map(|p| p.slider_velocity));
+    let (unin, inh) = change_chars();
+    let sv_of = |b: &str| tp(0, &format!("0,500\n10,{b},4,1,0,100,{inh},0")).and_then(|t| t.control_points.difficulty_points.last().map(|p| p.slider_velocity));
     let lo_l: Vec<Option<f64>> = ["-2147483647", "-1e9", "-1e8"].iter().map(|b| sv_of(b)).collect();
     let hi_l: Vec<Option<f64>> = ["-1e-300", "-1e-9", "-0.0001"].iter().map(|b| sv_of(b)).collect();
     let h = "saturation: DifficultyPoint::new with speed multiplier -inf/+inf, and the slider_velocity stored for decoded inherited lines with beat_len in {-2147483647, -1e9, -1e8} and {-1e-300, -1e-9, -1e-4}";
@@ -877,7 +938,7 @@ fn timing(_k: &Kept, e: &mut BTreeMap<String, Entry>) {
     // ---- sample volume clamp
     let lo_c = SamplePoint::new(0.0, SampleBank::Normal, i32::MIN, 0).sample_volume;
     let hi_c = SamplePoint::new(0.0, SampleBank::Normal, i32::MAX, 0).sample_volume;
-    let vol_of = |v: &str| tp(0, &format!("0,500,4,1,0,{v},1,0")).and_then(|t| t.control_points.sample_points.first().map(|p| p.sample_volume));
+    let vol_of = |v: &str| tp(0, &format!("0,500,4,1,0,{v},{unin},0")).and_then(|t| t.control_points.sample_points.first().map(|p| p.sample_volume));
     let lo_l: Vec<Option<i32>> = ["-2147483647", "-100000", "-1"].iter().map(|v| vol_of(v)).collect();
     let hi_l: Vec<Option<i32>> = ["2147483647", "100000", "5000"].iter().map(|v| vol_of(v)).collect();
     let h = "saturation: SamplePoint::new with volume i32::MIN/i32::MAX, and the volume stored for decoded timing lines with volumes {-2147483647, -100000, -1} and {2147483647, 100000, 5000}";
@@ -889,7 +950,7 @@ fn timing(_k: &Kept, e: &mut BTreeMap<String, Entry>) {
 
     // ---- scroll speed: modes and clamp
     let scroll = |mode: u8, b: &str| -> Option<Option<f64>> {
-        let t = tp(mode, &format!("0,500\n10,{b},4,1,0,100,0,0"))?;
+        let t = tp(mode, &format!("0,500\n10,{b},4,1,0,100,{inh},0"))?;
         Some(t.control_points.effect_points.last().map(|p| p.scroll_speed))
     };
     let mut modes = vec![];
@@ -914,6 +975,10 @@ fn timing(_k: &Kept, e: &mut BTreeMap<String, Entry>) {
     // GameMode discriminants are the values of `Mode:`
     let disc_ok = (0u8..=3).all(|m| decode::<General>(&format!("[General]\nMode: {m}\n")).map(|g| g.mode as u8) == Some(m));
     let h = "for Mode 0..3: an inherited line at a new time leaves an effect point whose scroll_speed differs from the default exactly in these modes (ascending; Mode: m decodes to the GameMode with discriminant m)";
+    let reads_lines = tp(0, "0,500").map_or(false, |t| !t.control_points.timing_points.is_empty());
+    if !reads_lines {
+        bad.push("the timing line `0,500` leaves no timing point".to_string());
+    }
     e.insert("tp_scroll_modes".into(), if bad.is_empty() && disc_ok {
         val(format!("[{}]", modes.iter().map(|m| m.to_string()).collect::<Vec<_>>().join("; ")), h).unordered()
     } else {
@@ -973,10 +1038,11 @@ fn timing(_k: &Kept, e: &mut BTreeMap<String, Entry>) {
     let t = tp(0, "0,500");
     let cb = t.as_ref().and_then(|t| t.control_points.sample_points.first().map(|p| p.custom_sample_bank));
     let sg = t.as_ref().and_then(|t| t.control_points.timing_points.first().map(|p| p.time_signature.numerator.get()));
-    let sg2 = tp(0, "0,500,0").and_then(|t| t.control_points.timing_points.first().map(|p| p.time_signature.numerator.get()));
+    let skip_field = if skip.len() == 1 { format!("0,500,{}", skip[0]) } else { "0,500".to_string() };
+    let sg2 = tp(0, &skip_field).and_then(|t| t.control_points.timing_points.first().map(|p| p.time_signature.numerator.get()));
     e.insert("tp_default_custom_bank".into(), match cb { Some(c) => val(c.to_string(), "custom_sample_bank of the sample point left by the two-field timing line `0,500`"), None => refuted("no sample point", "line `0,500`") });
     e.insert("tp_default_signature".into(), match (sg, sg2) {
-        (Some(a), Some(b)) if a == b && a == sig4.numerator.get() => val(a.to_string(), "time signature of the timing point left by `0,500` and by `0,500,0`; equals TimeSignature::new_simple_quadruple()"),
+        (Some(a), Some(b)) if a == b && a == sig4.numerator.get() => val(a.to_string(), "time signature of the timing point left by `0,500` and by `0,500,c` with c the observed skip character; equals TimeSignature::new_simple_quadruple()"),
         other => refuted(format!("{other:?}"), "time signature of minimal lines"),
     });
 
@@ -984,7 +1050,7 @@ fn timing(_k: &Kept, e: &mut BTreeMap<String, Entry>) {
     let mut kiai = vec![];
     let mut omit = vec![];
     for b in 0..31 {
-        if let Some(t) = tp(0, &format!("0,500,4,1,0,100,1,{}", 1i64 << b)) {
+        if let Some(t) = tp(0, &format!("0,500,4,1,0,100,{unin},{}", 1i64 << b)) {
             if t.control_points.effect_points.iter().any(|p| p.kiai) {
                 kiai.push(1i64 << b);
             }
@@ -1060,7 +1126,7 @@ fn hit_objects(_k: &Kept, e: &mut BTreeMap<String, Entry>) {
 
     // ---- control point leniency: which sample point reaches an object shortly before it
     let vol_at = |t: f64| -> Option<i32> {
-        let d = decode::<HitObjects>(&format!("[TimingPoints]\n0,500,4,1,0,10,1,0\n1048576,500,4,1,0,20,1,0\n[HitObjects]\n0,0,{t},1,0\n"))?;
+        let d = decode::<HitObjects>(&format!("[TimingPoints]\n0,500,4,1,0,10,{u},0\n1048576,500,4,1,0,20,{u},0\n[HitObjects]\n0,0,{t},1,0\n", u = change_chars().0))?;
         d.hit_objects.first()?.samples.first().map(|s| s.volume)
     };
     let t0 = 1048576.0f64;
@@ -1086,7 +1152,7 @@ fn hit_objects(_k: &Kept, e: &mut BTreeMap<String, Entry>) {
 
     // ---- base scoring distance: velocity * adjusted beat length / slider multiplier on exact values
     let vel = |mult: &str, bl: &str, mode: u8| -> Option<f64> {
-        let d = decode::<HitObjects>(&format!("[General]\nMode: {mode}\n[Difficulty]\nSliderMultiplier: {mult}\n[TimingPoints]\n0,{bl},4,1,0,100,1,0\n[HitObjects]\n0,0,0,2,0,L|100:0,1,100\n"))?;
+        let d = decode::<HitObjects>(&format!("[General]\nMode: {mode}\n[Difficulty]\nSliderMultiplier: {mult}\n[TimingPoints]\n0,{bl},4,1,0,100,{u},0\n[HitObjects]\n0,0,0,2,0,L|100:0,1,100\n", u = change_chars().0))?;
         match &d.hit_objects.first()?.kind {
             HitObjectKind::Slider(s) => Some(s.velocity),
             _ => None,
@@ -1698,8 +1764,23 @@ pub fn run(out_path: &str, generated: Option<&str>) -> i32 {
     ];
     for (name, f) in parts {
         let t = std::time::Instant::now();
+        let before: Vec<String> = e.keys().cloned().collect();
+        MISSING.with(|m| m.borrow_mut().clear());
         if let Err(msg) = guarded(|| f(&kept, &mut e)) {
             eprintln!("consts: part {name} panicked: {msg}");
+        }
+        // a probe that had to write a section header the compiled crate does not read has observed
+        // nothing: its refutation says "cannot be observed", not "different"
+        let missing = MISSING.with(|m| m.borrow().clone());
+        if !missing.is_empty() {
+            for (k, en) in e.iter_mut() {
+                if before.contains(k) || k.starts_with("section_") {
+                    continue;
+                }
+                if let Some(v) = en.value.clone().filter(|v| v.starts_with("REFUTED(")) {
+                    *en = none(format!("the probes of this group write the section header(s) {missing:?}, which the compiled crate does not read under any spelling tried (see section_table); this probe then found: {v}"));
+                }
+            }
         }
         eprintln!("consts: {name} {:.2}s", t.elapsed().as_secs_f64());
     }
